@@ -11,13 +11,17 @@ from harness.props import g1common as G
 def view(ex, info):
     root = ex.root
     members = []
+    from flatland.schema.base import Element
     for m in root:
+        if not isinstance(m, Element):
+            members.append([ex.lab(m), {"raw": G.vj(m)}, None])
+            continue
         scalar = G.kind_of_element(m) in ("integer", "string")
-        members.append([ex.lab(m), G.vj(m.value), m.u if scalar else None])
+        members.append([ex.lab(m), G.sv(m), m.u if scalar else None])
     slots = None
     if G.kind_of_element(root) == "list":
-        slots = [(m.parent.name if m.parent is not None else None) for m in root]
-    return {"members": members, "slots": slots, "value": G.vj(root.value), "len": len(root)}
+        slots = [(getattr(getattr(m, "parent", None), "name", None)) for m in root]
+    return {"members": members, "slots": slots, "value": G.sv(root), "len": len(root)}
 
 
 # ---------------------------------------------------------------- oracle: a real Python list
@@ -178,6 +182,10 @@ def make_check():
                             if got != [v for v, _ in exp_ret]:
                                 fail("getslice-equals-list", G.vj([v for v, _ in exp_ret]), G.vj(got))
         # the state clauses, after every step
+        from flatland.schema.base import Element
+        if any(not isinstance(m, Element) for m in root):
+            fail("members-typed", root.member_schema.__name__, "a raw value is stored as a member")
+            return fails
         got = [m.value for m in root]
         if got != ref.values():
             fail("members-equal-list", G.vj(ref.values()), G.vj(got))
@@ -232,13 +240,19 @@ def eq_search_with_unadapted(case, failure):
         and bool(failure.get("unadapted"))
 
 
+def _dictlike(v):
+    return (isinstance(v, dict) and ("d" in v or "p" in v or v.get("l") == [])) or v == ""
+
+
 def failed_inplace_set(case, failure):
-    """class predicate of KF-C09-b: `lst[i] = plain value` on a List whose Dict member schema rejects
-    the value (KeyError/TypeError from Dict.set's policy) — the call raised, yet the member was reset"""
+    """class predicate of KF-C09-b: `lst[i] = plain value` on a List (slot-based) whose member schema is a
+    Dict/SparseDict, where Dict.set() does not end as a fresh member_schema(value) would: it raised
+    KeyError/TypeError after resetting the member, or the value is not dict-like and the member was left as
+    it was"""
     op = failure.get("op") or {}
     return (failure.get("clause") in ("members-equal-list", "value-equals-list")
             and failure.get("kind") == "list" and op.get("op") == "setitem" and failure.get("plain")
-            and failure.get("raised") in ("KeyError", "TypeError")
+            and (failure.get("raised") in ("KeyError", "TypeError") or not _dictlike((op.get("a") or {}).get("v")))
             and case["schema"]["subs"][0]["k"] in ("dict", "sparse"))
 
 
@@ -338,6 +352,8 @@ class C09(Property):
         D = _dict(2, [_int(3, "x"), _str(4, "y")])
         out.append({"schema": _seq("list", D), "init": {"route": "ctor_value", "value": {"l": [{"d": [["x", 1], ["y", "a"]]}]}},
                     "ops": [_op({"op": "setitem", "i": 0, "a": {"v": {"d": [["zz", 3]]}}})]})
+        out.append({"schema": _seq("list", D), "init": {"route": "ctor_value", "value": {"l": [{"d": [["x", 1], ["y", "a"]]}]}},
+                    "ops": [_op({"op": "setitem", "i": 0, "a": {"v": 5}})]})
         # past disagreements / edge shapes
         out.append({"schema": _seq("list", I), "init": {"route": "ctor_value", "value": {"l": [1, 2, 3, 4, 5]}},
                     "ops": [_op({"op": "setslice", "sl": [None, None, 2], "as": [{"v": 7}]}),
@@ -404,6 +420,8 @@ class C09(Property):
         return None
 
     def nontrivial(self, case, obs):
+        if any("view_raises" in st["view"] for st in obs["steps"]):
+            return True
         steps = obs["steps"]
         changed = 0
         for a, b in zip(steps, steps[1:]):
@@ -412,6 +430,8 @@ class C09(Property):
         return changed >= 3
 
     def tags(self, case, obs):
+        if any("view_raises" in st["view"] for st in obs["steps"]):
+            return ["view-raises"]
         t = ["kind=" + case["schema"]["k"], "member=" + case["schema"]["subs"][0]["k"], "route=" + case["init"]["route"],
              "ops=%d" % len(case["ops"])]
         for o, st in zip(case["ops"], obs["steps"][1:]):
